@@ -814,7 +814,7 @@ class Interp:
             # a conversion implemented in this crate is evaluated; foreign conversions (From<[u8;32]> for Hash, ...) carry the value
             for pth in (res_path, path):
                 lb = self.f.bodies.get(pth)
-                if lb is not None and not lb.rec.get("derived") and d0 is not None and d0[0] != "tok":
+                if lb is not None and not lb.rec.get("derived") and d0 is not None and (d0[0] != "tok" or pth in self.inline):
                     try:
                         return self.call_body(pth, args, depth + 1)
                     except Unsupported:
